@@ -705,6 +705,79 @@ fn shape(i: usize) -> Shapes {
     Shapes { v, after: i as u8 }
 }
 
+/// Errors of a derived error type whose variant has only optional fields (absent ones are left out
+/// of `parameters`): every combination, in pairs; expected frames are built by hand, not with the
+/// type's own Serialize impl.
+#[derive(Debug, zlink_core::ReplyError)]
+#[zlink(interface = "oe", crate = "zlink_core")]
+enum OptErr {
+    AllOpt { a: Option<u8>, b: Option<String> },
+    Unit,
+}
+fn opt_err(i: usize) -> (OptErr, Value) {
+    let p = |a: Option<u8>, b: Option<&str>| {
+        let mut m = serde_json::Map::new();
+        if let Some(a) = a {
+            m.insert("a".into(), json!(a));
+        }
+        if let Some(b) = b {
+            m.insert("b".into(), json!(b));
+        }
+        (OptErr::AllOpt { a, b: b.map(|x| x.to_string()) }, json!({"error": "oe.AllOpt", "parameters": m}))
+    };
+    match i {
+        0 => p(None, None),
+        1 => p(Some(7), None),
+        2 => p(None, Some("text")),
+        3 => p(Some(0), Some("")),
+        _ => (OptErr::Unit, json!({"error": "oe.Unit"})),
+    }
+}
+fn opt_err_case(idx: u64, sink: &mut Sink<'_>) {
+    let (i, j) = ((idx / 5) as usize, (idx % 5) as usize);
+    let case = || json!({"group": "optional-error-fields", "index": idx, "first": format!("{:?}", opt_err(i).0), "second": format!("{:?}", opt_err(j).0)});
+    let wire = Wire::new(0, None);
+    let mut conn = wire.connection();
+    sink.goal("error-whose-fields-are-all-optional");
+    let mut want = Vec::new();
+    for k in [i, j] {
+        let (e, v) = opt_err(k);
+        if let Err(x) = complete(conn.send_error(&e)) {
+            sink.fail("outframe:valid-message-refused", format!("{e:?}: {x:?}"), case());
+            return;
+        }
+        want.push(v);
+    }
+    let w = wire.0.borrow();
+    if w.writes.len() != 2 {
+        sink.fail("outframe:flush-split-into-several-writes", format!("{} writes for two send_error calls", w.writes.len()), case());
+        return;
+    }
+    for (k, wr) in w.writes.iter().enumerate() {
+        let ok = wr.last() == Some(&0) && serde_json::from_slice::<Value>(&wr[..wr.len() - 1]).map_or(false, |mut g| {
+            // an absent field may be written as null or left out
+            if let Some(p) = g.get_mut("parameters").and_then(|p| p.as_object_mut()) {
+                p.retain(|_, v| !v.is_null());
+            }
+            // an absent `parameters` and an empty one say the same for a variant without present fields
+            if g.get("parameters").map_or(false, |p| p.as_object().map_or(false, |o| o.is_empty())) && want[k].get("parameters").map_or(true, |p| p.as_object().map_or(false, |o| o.is_empty())) {
+                g.as_object_mut().unwrap().remove("parameters");
+            }
+            let mut e = want[k].clone();
+            if e.get("parameters").map_or(false, |p| p.as_object().map_or(false, |o| o.is_empty())) {
+                e.as_object_mut().unwrap().remove("parameters");
+            }
+            g == e
+        });
+        if !ok {
+            sink.fail("outframe:write-is-not-the-one-document-of-its-message", format!("error #{k}: the transport got `{}`, the message is {}", show(wr), want[k]), case());
+            return;
+        }
+    }
+    sink.steps(2);
+    sink.pass(H64::new().u(idx).get());
+}
+
 fn shape_case(idx: u64, sink: &mut Sink<'_>) {
     let n = N_SHAPES as u64;
     let (form, i, j) = (idx / (n * n), (idx / n % n) as usize, (idx % n) as usize);
@@ -754,7 +827,7 @@ fn shape_case(idx: u64, sink: &mut Sink<'_>) {
 
 pub fn run(tier: Tier) -> i32 {
     let mut rep = Report::new("C02", tier.name());
-    rep.rule = "phase square: both message lengths from 1..=700 (all 490 000 pairs) x 4 operation forms (enqueue+enqueue+flush, send+send, enqueue+send, enqueue+flush+send), so every free-space value 0..=600 and every relation to the 256-byte step is met when the second message starts; phase odd-characters: every pair of payloads holding NUL / control / quote / backslash / DEL / non-ASCII / U+2028 as a char, inside a string and inside a map key x 3 operation forms (each message must carry exactly one NUL byte: its terminator); phase empty-shapes: every pair of 14 payloads whose encoding has nothing between its brackets (enum variants with an empty or entirely skipped payload, field-less structs, empty and nested-empty containers, unit, Some(None)) x 3 operation forms; phase large (run by the main build, production limit): one flush handing over 4 KiB .. 1 MiB (one below, at, one above every power of two; quick: to 256 KiB) built in five ways (one large message, hundreds of small ones, mixtures), then a second flush and a small message; phases hist*: DFS over all operation histories up to the stated length over {enqueue_call, send_call, send_reply, send_error} x lengths chosen relative to the current free space (1, 2, 9, free-2..free+2, free+254..free+258) + flush + 4 unserializable messages (tuple map key; Serialize impl failing after 0/5/150 elements) through enqueue and through send. Outcomes are distinct (pending length, write count) sequences; states are (buffer length, pending length, writes) triples".into();
+    rep.rule = "phase square: both message lengths from 1..=700 (all 490 000 pairs) x 4 operation forms (enqueue+enqueue+flush, send+send, enqueue+send, enqueue+flush+send), so every free-space value 0..=600 and every relation to the 256-byte step is met when the second message starts; phase odd-characters: every pair of payloads holding NUL / control / quote / backslash / DEL / non-ASCII / U+2028 as a char, inside a string and inside a map key x 3 operation forms (each message must carry exactly one NUL byte: its terminator); phase empty-shapes: every pair of 14 payloads whose encoding has nothing between its brackets (enum variants with an empty or entirely skipped payload, field-less structs, empty and nested-empty containers, unit, Some(None)) x 3 operation forms; phase optional-error-fields: pairs of errors of a derived type whose variant has only optional fields, every combination present / absent, frames compared with hand-built JSON; phase large (run by the main build, production limit): one flush handing over 4 KiB .. 1 MiB (one below, at, one above every power of two; quick: to 256 KiB) built in five ways (one large message, hundreds of small ones, mixtures), then a second flush and a small message; phases hist*: DFS over all operation histories up to the stated length over {enqueue_call, send_call, send_reply, send_error} x lengths chosen relative to the current free space (1, 2, 9, free-2..free+2, free+254..free+258) + flush + 4 unserializable messages (tuple map key; Serialize impl failing after 0/5/150 elements) through enqueue and through send. Outcomes are distinct (pending length, write count) sequences; states are (buffer length, pending length, writes) triples".into();
     rep.assumptions = vec![
         "serde_json::to_vec is the meaning of `the JSON document of a message`; a write that differs in bytes but splits at NUL into documents denoting the same values is accepted here (byte identity is C03)".into(),
         "the scripted WriteHalf accepts every write completely (write faults and partial writes are C09/C19)".into(),
@@ -783,6 +856,8 @@ pub fn run(tier: Tier) -> i32 {
     rep.add(sweep("odd-characters", 3 * (ODD_CHARS.len() * ODD_CHARS.len()) as u64, &cfg, odd_case));
     rep.require_goal("payload-with-an-empty-variant-or-container");
     rep.add(sweep("empty-shapes", 3 * (N_SHAPES * N_SHAPES) as u64, &cfg, shape_case));
+    rep.require_goal("error-whose-fields-are-all-optional");
+    rep.add(sweep("optional-error-fields", 25, &cfg, opt_err_case));
     let plan: Vec<(&str, usize, bool)> = match tier {
         Tier::Quick => vec![("hist3-full", 3, false), ("hist4-reduced", 4, true)],
         Tier::Thorough => vec![("hist4-full", 4, false), ("hist5-reduced", 5, true)],
@@ -814,7 +889,9 @@ pub fn replay(v: &Value) -> Replayed {
     if v["kind"] == "sweep" {
         let idx = v["index"].as_u64().unwrap_or(0);
         let cfg = Config { threads: 1, ..Default::default() };
-        let st = if v["case"]["group"] == "empty-shapes" {
+        let st = if v["case"]["group"] == "optional-error-fields" {
+            xplore::sweep_one("optional-error-fields", v["case"]["index"].as_u64().unwrap_or(idx), &cfg, opt_err_case)
+        } else if v["case"]["group"] == "empty-shapes" {
             xplore::sweep_one("empty-shapes", v["case"]["index"].as_u64().unwrap_or(idx), &cfg, shape_case)
         } else if v["case"]["group"] == "odd-characters" { xplore::sweep_one("odd-characters", idx, &cfg, odd_case) } else { xplore::sweep_one("square", idx, &cfg, square_case) };
         return match st.violations.into_iter().next() {
